@@ -79,9 +79,104 @@ impl Suite for AckChain {
         let key_s = case["key"].as_str().unwrap_or("k").to_string();
         let val = Arc::new(case["value"].as_str().unwrap_or("v").to_string());
         let op = case["op"].as_str().unwrap_or("").to_string();
+        let preload = case["preload"].as_str().map(|v| v.to_string());
         n.runner.block_on(async move {
             let key = ConfigKey::new(&key_s, "G", "");
+            // a value this node has APPLIED from the replicated log (state-machine apply of a committed ConfigSet):
+            // on the node that does not lead, a lagging follower's stale content
+            if let Some(pv) = preload {
+                app.config_addr
+                    .send(rnacos::config::model::ConfigRaftCmd::ConfigAdd {
+                        key: key.build_key(),
+                        value: Arc::new(pv),
+                        config_type: None,
+                        desc: None,
+                        history_id: 1,
+                        history_table_id: None,
+                        op_time: 1_700_000_000_000,
+                        op_user: None,
+                    })
+                    .await
+                    .ok();
+            }
+            let grpc = |t: &'static str, body: String| {
+                let app = app.clone();
+                async move {
+                    use rnacos::grpc::handler::InvokerHandler;
+                    use rnacos::grpc::server::RequestServerImpl;
+                    use rnacos::grpc::PayloadUtils;
+                    let mut invoker = InvokerHandler::new(app.clone());
+                    invoker.add_config_handler(&app);
+                    let server = RequestServerImpl::new(app.clone(), invoker);
+                    let payload = PayloadUtils::build_full_payload(t, body, "127.0.0.1", HashMap::new());
+                    let (_s, _c, res) = server.verif_fill_and_handle(payload).await;
+                    match res {
+                        Ok(hr) => {
+                            let rtype = PayloadUtils::get_payload_type(&hr.payload).cloned().unwrap_or_default();
+                            let body = hr.payload.body.as_ref().map(|b| String::from_utf8_lossy(&b.value).into_owned()).unwrap_or_default();
+                            let bj: Value = serde_json::from_str(&body).unwrap_or(Value::Null);
+                            if hr.success && rtype != "ErrorResponse" && bj["resultCode"].as_i64() == Some(200) {
+                                json!("ok")
+                            } else {
+                                json!({"err": format!("{} {}", rtype, bj["message"].as_str().unwrap_or("")).chars().take(80).collect::<String>()})
+                            }
+                        }
+                        Err(e) => json!({"err": e.to_string().chars().take(80).collect::<String>()}),
+                    }
+                }
+            };
+            let http = |method: &'static str, form: String| {
+                let app = app.clone();
+                async move {
+                    use actix_web::web::Data;
+                    use actix_web::{test, App};
+                    use std::ops::Deref;
+                    let conf = app.sys_config.deref().clone();
+                    let srv = test::init_service(
+                        App::new()
+                            .app_data(Data::new(app.clone()))
+                            .app_data(Data::new(app.config_addr.clone()))
+                            .app_data(Data::new(app.naming_addr.clone()))
+                            .app_data(Data::new(app.bi_stream_manage.clone()))
+                            .configure(rnacos::web_config::app_config(conf)),
+                    )
+                    .await;
+                    let req = if method == "POST" {
+                        test::TestRequest::post()
+                            .uri("/nacos/v1/cs/configs")
+                            .insert_header(("content-type", "application/x-www-form-urlencoded"))
+                            .set_payload(form)
+                            .to_request()
+                    } else {
+                        test::TestRequest::delete().uri(&format!("/nacos/v1/cs/configs?{}", form)).to_request()
+                    };
+                    let resp = test::call_service(&srv, req).await;
+                    let st = resp.status().as_u16();
+                    let body = String::from_utf8_lossy(&test::read_body(resp).await).into_owned();
+                    if st == 200 && body.trim() == "true" {
+                        json!("ok")
+                    } else {
+                        json!({"err": format!("{} {}", st, body).chars().take(80).collect::<String>()})
+                    }
+                }
+            };
             let answer = match op.as_str() {
+                "grpc_publish" => {
+                    grpc(
+                        "ConfigPublishRequest",
+                        json!({"dataId": key_s, "group": "G", "tenant": "", "content": val.as_str(), "requestId": "r1", "headers": {}}).to_string(),
+                    )
+                    .await
+                }
+                "grpc_remove" => {
+                    grpc(
+                        "ConfigRemoveRequest",
+                        json!({"dataId": key_s, "group": "G", "tenant": "", "requestId": "r1", "headers": {}}).to_string(),
+                    )
+                    .await
+                }
+                "http_publish" => http("POST", format!("dataId={}&group=G&content={}", key_s, val)).await,
+                "http_delete" => http("DELETE", format!("dataId={}&group=G", key_s)).await,
                 "async_add" => match app
                     .config_addr
                     .send(ConfigAsyncCmd::Add { key: key.clone(), value: val.clone(), op_user: None, config_type: None, desc: None })
